@@ -39,7 +39,8 @@ struct Outcome
     uint64_t sdigest = 0;       // structure-only digest (no source points)
     std::string text;           // tree text where the value type keeps one; otherwise empty
     int exc = 0;                // 0 none, 1 std::bad_alloc, 2 budget exceeded (run abandoned), 3 other std::exception, 4 unknown,
-                                // 5 std::bad_variant_access (the value stack and the state stack disagree about what lies where)
+                                // 5 std::bad_variant_access (the value stack and the state stack disagree about what lies where),
+                                // 6 std::runtime_error (the library's own: a fixed-capacity stack is full)
     std::string exc_what;
     std::string oss_text;       // STR_OSS: what the real std::ostringstream received
     bool stream_bad = false;    // stream state after the call
